@@ -4,7 +4,7 @@ use crate::engine::*;
 use crate::ensure;
 use crate::gen;
 use crate::kinds::vec_inst as sv;
-use crate::model::partition_of_pairs;
+use crate::model::{partition_of_pairs, Diagram};
 use crate::tape::Tape;
 use open_hypergraphs::category::Arrow;
 
@@ -12,7 +12,7 @@ pub static PROP: Prop = Prop {
     id: "C01",
     title: "Sequential composition is exactly the gluing (pushout) of the two diagrams",
     check,
-    max_tape: (220, 420),
+    max_tape: (300, 460),
     cases: (150_000, 1_500_000),
     both_profiles: false,
     rule: "pairs (f,g) of generated well-formed diagrams, g's source interface re-attached to have f's target type (85%) or perturbed to mismatch (15%); non-trivial = types match, shared boundary length >= 1 and at least one hyperedge in f or g; distinct = hash of (f,g)",
@@ -21,9 +21,68 @@ pub static PROP: Prop = Prop {
         "the isomorphism decision procedure is sound (validated against brute force in the selftest sub-checks)",
     ],
     fixed: None,
+    scale: Some(super::scale::c01),
 };
 
+/// two diagrams glued along a large, heavily non-injective boundary (16..128 wires) whose order
+/// makes the gluing's union-find forest deep
+fn big_boundary(t: &mut Tape, ctx: &mut Ctx) -> CheckResult {
+    ctx.class("big-boundary");
+    let k = t.range(3, 6);
+    let (nf, ng, ft, gs) = gen::tournament_boundary(t, k);
+    let drop = t.choice(3);
+    let keep = ft.len() - drop.min(ft.len());
+    let mut f = Diagram { nodes: vec![0; nf], edges: vec![], s: vec![], t: ft[..keep].to_vec() };
+    let mut g = Diagram { nodes: vec![0; ng], edges: vec![], s: gs[..keep].to_vec(), t: vec![] };
+    // a little structure around the boundary
+    for _ in 0..t.choice(3) {
+        let (a, b) = (t.choice(nf), t.choice(nf));
+        f.edges.push(crate::model::Edge { label: t.choice(2) as u32, src: vec![a], tgt: vec![b] });
+        f.s.push(t.choice(nf));
+    }
+    for _ in 0..t.choice(3) {
+        let (a, b) = (t.choice(ng), t.choice(ng));
+        g.edges.push(crate::model::Edge { label: t.choice(2) as u32, src: vec![a, b], tgt: vec![] });
+        g.t.push(t.choice(ng));
+    }
+    ctx.set_dump(format!("f = {}\ng = {}", f.pretty(), g.pretty()));
+    let got = wf(ctx, "compose-wf", sv::op_compose(&f, &g), "f >> g")?.ok_or_else(|| ctx.fail("compose-defined", "types match but composition returned None"))?;
+    let want = f.compose(&g).expect("types match");
+    ensure!(ctx, got.nodes.len() == want.nodes.len(), "compose-node-count", "composite has {} nodes, gluing has {} (boundary of {} wires)", got.nodes.len(), want.nodes.len(), keep);
+    require_iso(ctx, "compose-is-pushout", &got, &want, "f ; g (large boundary)")?;
+    ctx.nontrivial(&(&f, &g));
+    Ok(())
+}
+
+/// lax composition of operands that still carry pending unifications, strictified
+fn lax_compose_case(t: &mut Tape, ctx: &mut Ctx) -> CheckResult {
+    use crate::lax_ops::*;
+    use crate::model::Lax;
+    ctx.class("lax-compose");
+    let sz = ctx.sizes;
+    let al = gen::alpha(t, &sz);
+    let fd = gen::diagram(t, &sz, al, ctx);
+    let mut gd = gen::diagram(t, &sz, al, ctx);
+    gen::with_source_type(t, &mut gd, &fd.target_type());
+    let f = Lax { q: gen::pending_pairs(t, &fd, 3, true), d: fd };
+    let g = Lax { q: gen::pending_pairs(t, &gd, 3, true), d: gd };
+    ctx.set_dump(format!("lax f = {}\nlax g = {}", f.pretty(), g.pretty()));
+    let c = Arrow::compose(&to_lax(&f), &to_lax(&g)).ok_or_else(|| ctx.fail("compose-defined", "lax composition undefined although the types match"))?;
+    let got = wf(ctx, "compose-wf", sv::from_strict(&c.to_strict()), "strict(lax f ; lax g)")?;
+    let want = f.strictify().unwrap().compose(&g.strictify().unwrap()).expect("types match");
+    require_iso(ctx, "lax-compose-is-pushout", &got, &want, "strict(f ; g) for lax operands with pending unifications")?;
+    if !f.d.t.is_empty() && (!f.q.is_empty() || !g.q.is_empty()) {
+        ctx.nontrivial(&(&f, &g));
+    }
+    Ok(())
+}
+
 fn check(t: &mut Tape, ctx: &mut Ctx) -> CheckResult {
+    match t.weighted(&[16, 1, 3]) {
+        1 => return big_boundary(t, ctx),
+        2 => return lax_compose_case(t, ctx),
+        _ => {}
+    }
     let sz = ctx.sizes;
     let al = gen::alpha(t, &sz);
     let mismatch = t.weighted(&[17, 3]) == 1;
